@@ -615,6 +615,9 @@ def run(ctx):
     e = getattr(ctx, 'gen_report', {}).get('ClientScope.v', {'ok': False, 'error': 'no such generator'})
     if not ctx.oblige('translator:ClientScope.v', e['ok'], e.get('error', '')):
         ctx.proof_broken.append(f'translator could not regenerate Gen/ClientScope.v: {e.get("error")}')
+    if ctx.replay and 'tls_cases' in ctx.replay:
+        from checks import c13_tls
+        return c13_tls.run_tls(ctx)
     if ctx.replay and 'serial' in ctx.replay:
         serial_items(ctx, [(x[0], x[1], [tuple(e) for e in x[2]]) for x in ctx.replay['serial']])
         return
@@ -658,6 +661,9 @@ def run(ctx):
         n_opt = loopback_options(ctx)
         n_loop, ltraces = loopback(ctx, 100 if ctx.quick() else 220)
         n_serial = serial(ctx, 40 if ctx.quick() else 150)
+        # TLS channels: the listener path of the real spawn_tls_client_task (lib/checks/c13_tls.py)
+        from checks import c13_tls
+        c13_tls.run_tls(ctx)
     classes = {}
     for c, i in zip(cases, impl):
         for k in cl.classify(c, i):
